@@ -34,7 +34,15 @@ CONTAINER_FUTS = (
     'futures::future::JoinAll', 'futures::future::MaybeDone', 'futures::future::PollFn',
     'futures::stream::Collect', 'futures::stream::FuturesUnordered', 'futures::stream::FuturesOrdered',
     'std::pin::Pin', 'std::boxed::Box', 'futures::future::TryJoinAll', 'futures::future::Join',
-    'futures::future::Join3', 'std::alloc::Global',
+    'futures::future::Join3', 'std::alloc::Global', 'futures::future::TryJoin', 'futures::future::TryJoin3',
+    'futures::future::Select', 'futures::future::SelectAll', 'futures::future::SelectOk', 'futures::future::Abortable',
+    'futures::future::TryMaybeDone', 'futures::future::IntoFuture',
+)
+# combinators that drop their unfinished constituents when one of them finishes (with an error)
+SHORT_CIRCUIT_FUTS = (
+    'futures::future::TryJoinAll', 'futures::future::TryJoin', 'futures::future::TryJoin3', 'futures::future::TryJoin4',
+    'futures::future::Select', 'futures::future::SelectAll', 'futures::future::SelectOk', 'futures::future::Abortable',
+    'futures::stream::TryCollect', 'futures::stream::TryForEachConcurrent',
 )
 
 
